@@ -63,7 +63,8 @@ def check_span(case, ctx):
         ctx.check(lin == j, "find_span_linear", "find_span_linear(p=%d, u=%r) = %r, definition gives %d (kv=%r)" % (p, u, lin, j, kv))
         ctx.check(bins == j, "find_span_binsearch", "find_span_binsearch(p=%d, u=%r) = %r, definition gives %d (kv=%r)" % (p, u, bins, j, kv))
         m = helpers.find_multiplicity(u, kv)
-        ctx.check(m == sum(1 for k in kv if k == u), "find_multiplicity", "find_multiplicity(%r) = %r" % (u, m))
+        # documented default tolerance of the equality test: 10e-8
+        ctx.check(m == sum(1 for k in kv if abs(F(k) - F(u)) <= F(1, 10 ** 7)), "find_multiplicity", "find_multiplicity(%r) = %r (kv=%r)" % (u, m, kv))
     for func in (helpers.find_span_linear, helpers.find_span_binsearch):
         got = helpers.find_spans(p, kv, n, us, func)
         ctx.check(list(got) == expect, "find_spans", "find_spans(%s) = %r, expected %r" % (func.__name__, got, expect))
